@@ -23,7 +23,7 @@ ASSUMPTIONS = [
     "a measure is undefined when the statistic is NaN, the mode share >= thresh_mode or the NaN share >= thresh_nan",
     "association between two features is 0 when it cannot be computed (constant column)",
     "tolerance: relative 1e-9 on measures; 1e-12 around thresh_corr (a pair sitting on the threshold is ambiguous)",
-    "one association measure per feature type per selector (outlier measures may precede it)",
+    "one association measure per feature type, or two for the quantitative block of ClassificationSelector (thresh_kruskal=inf so that the second one runs); with several measures a left-out feature needs an admissible reason under each of them, the list is ordered by the last measure and holds at most n_best features per measure",
 ]
 _S = "AutoCarver/selectors/"
 ANCHORS = [(_S + "base_selector.py", "BaseSelector._select_features"), (_S + "base_selector.py", "BaseSelector.select"), (_S + "base_selector.py", "apply_filters"),
@@ -232,21 +232,29 @@ def pair_assoc(filter_name, X, f, g):
 def validate_block(X, y, feats, got, measure_name, filter_name, n_best, tc, selector_kind, counters, strength=None, th_nan=0.999, th_mode=0.999):
     """Clauses 1-6 for one feature type. strength: association strength used for ordering (defaults to the measure)."""
     probs = []
-    meas = {}
-    for f in feats:
-        if not defined_basic(X[f], th_nan, th_mode):
-            meas[f] = float("nan")
-        else:
-            meas[f] = target_measure(measure_name, X[f], y, selector_kind)
+    mnames = measure_name if isinstance(measure_name, list) else [measure_name]
+    allmeas = {}
+    for m in mnames:
+        allmeas[m] = {}
+        for f in feats:
+            if not defined_basic(X[f], th_nan, th_mode):
+                allmeas[m][f] = float("nan")
+            else:
+                allmeas[m][f] = target_measure(m, X[f], y, selector_kind)
+    # a feature is ranked only if every requested measure is defined for it; the list is ordered by the last measure
+    primary = mnames[-1]
+    meas = {f: (allmeas[primary][f] if all(allmeas[m][f] == allmeas[m][f] for m in mnames) else float("nan")) for f in feats}
     rank = meas if strength is None else {f: strength(meas[f]) for f in feats}
+    ranks = {m: ({f: (allmeas[m][f] if meas[f] == meas[f] else float("nan")) for f in feats} if strength is None else rank) for m in mnames}
+    n_best_total = n_best * len(mnames)
     tol = lambda a: TOL * max(1.0, abs(a))
     if len(set(got)) != len(got):
         probs.append(("duplicate", f"duplicate features returned: {got}"))
     if any(f not in feats for f in got):
         probs.append(("unknown_feature", f"features not among the candidates: {[f for f in got if f not in feats]}"))
         return probs, meas
-    if len(got) > n_best:
-        probs.append(("too_many", f"{len(got)} features returned for one measure, n_best={n_best}"))
+    if len(got) > n_best_total:
+        probs.append(("too_many", f"{len(got)} features returned for {len(mnames)} measure(s), n_best={n_best}"))
     und = [f for f in got if meas[f] != meas[f]]
     if und:
         probs.append(("undefined_returned", f"features with an undefined measure returned: {und}"))
@@ -258,21 +266,28 @@ def validate_block(X, y, feats, got, measure_name, filter_name, n_best, tc, sele
             v = pair_assoc(filter_name, X, a, b)
             if v > tc + 1e-12:
                 counters["correlated_pairs_seen"] += 1
-                probs.append(("correlated_pair_returned", f"{a} and {b} are both returned although their association {v:.6g} > thresh_corr={tc}"))
+                # with several measures: do two measures rank the pair in opposite orders (each one is the best of the pair under one measure)?
+                signs = {(ranks[m][a] > ranks[m][b]) - (ranks[m][a] < ranks[m][b]) for m in mnames}
+                flip = (1 in signs and -1 in signs)
+                probs.append(("correlated_pair_returned" + (":__flip__" if flip else ""), f"{a} and {b} are both returned although their association {v:.6g} > thresh_corr={tc}"
+                              + (" (the requested measures rank the two in opposite orders)" if flip else "")))
     for f in feats:
         if f in got or meas[f] != meas[f]:
             continue
         counters["features_left_out_checked"] += 1
-        better = [h for h in got if rank[h] == rank[h] and rank[h] >= rank[f] - tol(rank[f])]
-        if len(better) >= n_best:
-            continue
-        assoc = [pair_assoc(filter_name, X, f, h) for h in better]
-        if any(v > tc - 1e-12 for v in assoc):
-            counters["correlated_pairs_seen"] += 1
-            continue
-        probs.append(("left_out_without_reason:" + f, f"{f} (measure {meas[f]:.6g}) is left out: only {len(better)} returned features rank at least as high "
-                      f"(n_best={n_best}) and none is associated with it above thresh_corr={tc} (associations {[round(v, 4) for v in assoc]})"))
-    return probs, meas
+        for m in mnames:  # the feature must have a reason to be left out under every requested measure
+            rk = ranks[m]
+            better = [h for h in got if rk[h] == rk[h] and rk[h] >= rk[f] - tol(rk[f])]
+            if len(better) >= n_best:
+                continue
+            assoc = [pair_assoc(filter_name, X, f, h) for h in better]
+            if any(v > tc - 1e-12 for v in assoc):
+                counters["correlated_pairs_seen"] += 1
+                continue
+            probs.append(("left_out_without_reason:" + f, f"{f} ({m}={rk[f]:.6g}) is left out: only {len(better)} returned features rank at least as high under {m} "
+                          f"(n_best={n_best}) and none is associated with it above thresh_corr={tc} (associations {[round(v, 4) for v in assoc]})"))
+            break
+    return probs, (meas if len(mnames) == 1 else allmeas)
 
 
 def run_case(tier, seed, i):
@@ -297,7 +312,14 @@ def run_case(tier, seed, i):
     ctor = {}
     if custom:
         if selector_kind == "classification":
-            if rng.random() < 0.5:
+            r2 = rng.random()
+            if r2 < 0.3:
+                # two association measures: a later measure only runs while the previous one is below its threshold
+                from AutoCarver.selectors import kruskal_measure
+                ctor["quantitative_measures"] = [kruskal_measure, R_measure]
+                kw["thresh_kruskal"] = float("inf")
+                names["float"] = (["kruskal_measure", "R_measure"], names["float"][1])
+            elif r2 < 0.65:
                 ctor["quantitative_measures"] = gen.pick(rng, [[R_measure], [zscore_measure, R_measure], [iqr_measure, R_measure]])
                 names["float"] = ("R_measure", names["float"][1])
             if rng.random() < 0.5:
@@ -312,7 +334,7 @@ def run_case(tier, seed, i):
     counters = {"selections": 0, "blocks_validated": 0, "features_left_out_checked": 0, "library_values_compared": 0, "correlated_pairs_seen": 0}
     tags = [selector_kind, target_kind, "custom" if custom else "default"]
     sample = {"selector": selector_kind, "target": target_kind, "n": len(X), "n_best": n_best, "thresh_corr": tc, "column_kinds": kinds,
-              "measures": {k: v[0] for k, v in names.items()}, "filters": {k: v[1] for k, v in names.items()}, "thresh_nan": th_nan, "thresh_mode": th_mode}
+              "measures": {k: (v[0] if not isinstance(v[0], list) else "+".join(v[0])) for k, v in names.items()}, "filters": {k: v[1] for k, v in names.items()}, "thresh_nan": th_nan, "thresh_mode": th_mode}
     cls = ClassificationSelector if selector_kind == "classification" else RegressionSelector
     fx, fy = common.frame_fingerprint(X), common.frame_fingerprint(y)
     with contextlib.redirect_stdout(io.StringIO()):
@@ -342,30 +364,37 @@ def run_case(tier, seed, i):
         strength = (lambda m: abs(1 - m)) if mname == "distance_measure" else None
         probs, meas = validate_block(X, y, feats, g, mname, fname, n_best, tc, selector_kind, counters, strength, th_nan, th_mode)
         counters["blocks_validated"] += 1
-        defined = [f for f in feats if meas[f] == meas[f]]
+        multi = isinstance(mname, list)
+        meas1 = meas if not multi else {f: (meas[mname[-1]][f] if all(meas[m][f] == meas[m][f] for m in mname) else float("nan")) for f in feats}
+        defined = [f for f in feats if meas1[f] == meas1[f]]
         if len(defined) >= 3 and len(g) < len(defined):
             nontrivial = True
+        if multi:
+            counters["two_measure_blocks"] = counters.get("two_measure_blocks", 0) + 1
         for kind, msg in probs:
             feature = kind.split(":", 1)[1] if ":" in kind else None
             kind = kind.split(":", 1)[0]
-            viols.append({"kind": kind, "feature": feature, "dtype": dtype, "measure": mname, "selector": selector_kind, "msg": f"[{dtype}/{mname}/{fname}] {msg}",
+            viols.append({"kind": kind, "feature": feature, "dtype": dtype, "measure": mname if not isinstance(mname, list) else "+".join(mname), "selector": selector_kind, "msg": f"[{dtype}/{mname}/{fname}] {msg}",
                           "has_nan": {f: bool(X[f].isna().any()) for f in feats}})
         # library-reported values equal the recomputation
         with contextlib.redirect_stdout(io.StringIO()):
             lib, e = common.guarded(apply_measures, X, y, sel.measures[dtype], list(feats), **sel.kwargs)
-        if e is None and mname in lib.columns:
+        for one in (mname if multi else [mname]):
+          if e is None and one in lib.columns:
             for f in feats:
-                lv = lib.loc[f, mname]
+                lv = lib.loc[f, one]
                 try:
                     lv = float(lv)
                 except (TypeError, ValueError):
                     lv = float("nan")
-                mv = meas[f]
+                mv = meas[one][f] if multi else meas[f]
+                if multi and not defined_basic(X[f], th_nan, th_mode):
+                    mv = float("nan")
                 counters["library_values_compared"] += 1
                 if (lv != lv) != (mv != mv) or (lv == lv and not oracles.close(lv, mv, 1e-7)):
-                    viols.append({"kind": "measure_differs_from_recomputation", "dtype": dtype, "measure": mname, "selector": selector_kind, "feature": f,
+                    viols.append({"kind": "measure_differs_from_recomputation", "dtype": dtype, "measure": one, "selector": selector_kind, "feature": f,
                                   "feature_has_nan": bool(X[f].isna().any()), "lib": lv, "ref": mv,
-                                  "msg": f"[{dtype}/{mname}] library value {lv!r} for {f} != independent recomputation {mv!r}"})
+                                  "msg": f"[{dtype}/{one}] library value {lv!r} for {f} != independent recomputation {mv!r}"})
     for v in viols:
         v["mechanism"] = classify(v, selector_kind, names, X, got)
     if viols:
@@ -375,12 +404,14 @@ def run_case(tier, seed, i):
 
 def classify(v, selector_kind, names, X, got):
     """Known-finding mechanisms (decided from the violating case itself)."""
+    if v.get("kind") == "correlated_pair_returned" and v.get("feature") == "__flip__" and "+" in str(v.get("measure")):
+        return "F27"
     if selector_kind == "regression" and v.get("dtype") == "float" and v.get("measure") == "distance_measure" and \
             v.get("kind") in ("order", "left_out_without_reason", "undefined_returned", "measure_differs_from_recomputation"):
         return "F15"
     # F23: Kruskal-Wallis of y by the categories of x is NaN as soon as x has a missing value (empty group for NaN)
     if selector_kind == "regression" and v.get("dtype") == "str" and v.get("measure") == "kruskal_measure" and \
-            v.get("kind") in ("left_out_without_reason", "measure_differs_from_recomputation") and v.get("feature") is not None and \
+            v.get("kind") in ("left_out_without_reason", "measure_differs_from_recomputation") and v.get("feature") in X.columns and \
             bool(X[v["feature"]].isna().any()):
         if v.get("kind") == "measure_differs_from_recomputation" and not (v.get("lib") != v.get("lib")):
             return None
